@@ -361,7 +361,7 @@ func SRem(src S, states ...S) S {
 		return s
 	}
 
-	for i := 1; i < len(states); i++ {
+	for i := 0; i < len(states); i++ {
 		for ii := 0; ii < len(states[i]); ii++ {
 			s = slicesWithout(s, states[i][ii])
 		}
